@@ -1,6 +1,7 @@
 """C06: connections are never shared across origins (level: proof of an inductive invariant)."""
 from core import norm, L_call, L_variant, CallSite, closure_arg_of, sig
 from mir import op_place, place_str
+import re
 import pool
 
 META = {
@@ -162,6 +163,90 @@ def C06_2(ctx, facts):
                   "connect() argument roots: %s" % sorted(map(repr, rr)), c.where())
 
 
+def tokenmap_insert_table(ctx, facts):
+    import inline
+    import mapmodel
+    import seqmodel
+    from core import AbsPaths, VALUE_EQ, INT_CMP
+    from seqmodel import NONE, some, _arg, _deref, _set_dest
+    ins = facts.fn("client::pool::key::TokenMap::insert")
+    pats = [re.compile(p_) for p_, _ in mapmodel.RAW]
+    u = inline.inline(facts, ins, 4, lambda ck, raw: "::_::" not in ck and not any(rx.search(norm(ck)) for rx in pats), expand=True)
+    ctx.touched(u)
+    adt = facts.adt("client::pool::key::TokenMap")
+    fl = adt["variants"][0]["fields"]
+    mi = [i for i, x in enumerate(fl) if "HashMap<" in x["ty"]]
+    ci = [i for i, x in enumerate(fl) if "NonZero" in x["ty"]]
+    if len(mi) != 1 or len(ci) != 1:
+        return ctx.missing("TokenMap|fields", "TokenMap { counter: NonZero.., map: HashMap<K, Token> } not identified by type")
+
+    def o_checked_add(ev, st, t, site):
+        a = _deref(st, _arg(ev, st, t, 0))
+        if a == ("const", "CNT"):
+            return _set_dest(st, t, some(("const", "CNT+1")))
+        if a == ("const", "CNT_MAX"):
+            return _set_dest(st, t, NONE)
+        return False
+
+    def o_nz_new(ev, st, t, site):
+        a = _deref(st, _arg(ev, st, t, 0))
+        if a is not None and a[0] == "const" and str(a[1]).startswith("1"):
+            return _set_dest(st, t, some(("const", "ONE")))
+        return False
+
+    def o_or(ev, st, t, site):
+        a, b_ = _deref(st, _arg(ev, st, t, 0)), _deref(st, _arg(ev, st, t, 1))
+        if a is None or a[0] != "variant":
+            return False
+        return _set_dest(st, t, a if a[1] == "Some" else b_)
+
+    def o_unwrap(ev, st, t, site):
+        a = _deref(st, _arg(ev, st, t, 0))
+        if a is None or a[0] != "variant" or a[1] not in ("Some", "Ok"):
+            return False
+        return _set_dest(st, t, dict(a[2]).get(0))
+    raw = mapmodel.RAW + [(r"NonZero.*::checked_add$", o_checked_add), (r"NonZero.*::new$", o_nz_new), (r"Option.*::or$", o_or),
+                          (r"Option.*::(unwrap|expect)$|Result.*::(unwrap|expect)$", o_unwrap)] + seqmodel.RAW_ORACLES
+    SELF = 9000
+    old_tok = ("variant", "Token", ((0, some(("const", "CNT_OLD"))),))
+    rows = 0
+    for present in (True, False):
+        for cmax in (False, True):
+            cnt = ("const", "CNT_MAX" if cmax else "CNT")
+            this = ("variant", "TokenMap", tuple(sorted({ci[0]: cnt, mi[0]: ("map", 7)}.items())))
+            items = ((("const", "KEY_OTHER"), ("variant", "Token", ((0, some(("const", "CNT_OTHER"))),))),) + (((("const", "KEY"), old_tok),) if present else ())
+            st = {1: ("refmut", SELF), SELF: this, 2: ("const", "KEY"), -7: ("list", items)}
+            key = "TokenMap::insert|table|key-%s|counter-%s" % ("known" if present else "new", "max" if cmax else "ordinary")
+
+            def counter_of(st_):
+                v = st_.get(SELF)
+                return dict(v[2]).get(ci[0]) if v is not None and v[0] == "variant" else None
+            try:
+                outs = AbsPaths(u, limit=20000, raw_oracles=raw, oracles=[VALUE_EQ, INT_CMP]).outcomes(state=st, extra_keys=(-7, counter_of))
+            except AbsPaths.Undecided as e:
+                ctx.undecided(key, str(e))
+                continue
+            rows += 1
+            got = set()
+            for (rv, _, (m, c)) in outs:
+                while rv is not None and rv[0] == "refval":
+                    rv = rv[1]
+                c2 = c
+                if c2 is not None and c2[0] == "const" and ("MIN" in str(c2[1]) or str(c2[1]) in ("ONE",) or re.match(r"^1(_usize|_u64)?$", str(c2[1]))):
+                    c2 = ("const", "ONE")
+                got.add((rv, m[1] if m is not None else None, c2))
+            if present:
+                want = {(old_tok, items, cnt)}
+                good = "a known key keeps its token: the stored token is answered, the map and the counter are untouched"
+            else:
+                tok = ("variant", "Token", ((0, some(cnt)),))
+                want = {(tok, items + ((("const", "KEY"), tok),), ("const", "ONE" if cmax else "CNT+1"))}
+                good = "a new key gets the current counter value as its token, the token is stored under that key (other keys untouched), and the counter advances%s" % (" (wrapping to 1)" if cmax else "")
+            ctx.check(got == want, key, good,
+                      "TokenMap::insert can end with (token answered, map afterwards, counter afterwards) = %s; expected %s" % (sorted(map(str, got))[:3], sorted(map(str, want))), u.where())
+    ctx.floor("TokenMap::insert|table-rows", rows, 4, "scenarios evaluated")
+
+
 def C06_3(ctx, facts):
     sites = []
     for g in facts.fns.values():
@@ -218,35 +303,9 @@ def C06_3(ctx, facts):
         rr = z.roots(s["r"]["ops"][0])
         ctx.check(any(r.kind == "agg" and r.desc.endswith("::None") for r in rr), "Token::zero|is-None", "Token::zero() is Token(None), distinct from every minted Token(Some(_))",
                   "Token::zero() is not None: %s" % sorted(map(repr, rr)), z.where(b))
-    # insert in normal form (or_insert_with is expanded to the match on the Entry it abbreviates; an explicit
-    # `match self.map.entry(key) { Occupied(e) => *e.get(), Vacant(v) => *v.insert(mint()) }` is the same thing):
-    # an occupied entry answers the stored token, a token is minted - and stored - only for a vacant entry
-    iu = facts.unit(ins, expand=True)
-    en = [c for c in iu.calls() if c.matches(r"HashMap.*::entry$")]
-    ok = len(en) == 1
-    if ok:
-        e = en[0]
-        kr = iu.roots(e.args[1], through_calls=False)
-        mr = iu.roots(e.args[0])
-        ok = any(r.kind == "arg" and r.desc == "key" for r in kr) and any(r.kind == "arg" and r.desc == "self.map" for r in mr)
-    rr = iu.roots({"l": 0, "p": []})
-    ok = ok and any(r.kind == "call" and r.site.matches(r"HashMap.*::entry$") for r in rr)
-    ctx.check(ok, "TokenMap::insert|entry-or-insert", "insert answers through self.map.entry(key): equal keys get the stored token",
-              "TokenMap::insert does not answer through map.entry(key): roots %s" % sorted(map(repr, sig(rr)))[:8], ins.where())
-    eb = {c.bb for c in en}
-    vacant = lambda lab: lab.kind == "variant" and lab.variants == {"Vacant"} and any(r.kind == "call" and r.site.bb in eb for r in iu.roots({"l": lab.place["l"], "p": []}, through_calls=False))
-    mints = [(b_, s_) for (b_, i_, s_) in iu.aggregates(TOKEN_TY)]
-    ctx.floor("TokenMap::insert|mint-in-unit", len(mints), 1, "token mint sites in insert")
-    for (b_, s_) in mints:
-        g, w = iu.guarded(b_, vacant)
-        ctx.check(g, "TokenMap::insert|mint-only-if-vacant", "a token is minted only on the Vacant edge of the entry (a known key keeps its token)",
-                  "a token can be minted for a key that already has one", iu.where(b_), iu.path_desc(w))
-    vins = [c for c in iu.calls() if c.matches(r"VacantEntry.*::insert$|VacantEntry.*::insert_entry$")]
-    ctx.floor("TokenMap::insert|vacant-insert", len(vins), 1, "storing of the minted token in the vacant entry")
-    for c in vins:
-        rv = iu.roots(c.args[1])
-        ctx.check(any(r.kind == "arg" and "counter" in r.desc for r in rv), "TokenMap::insert|stored-is-minted", "what is stored for a new key is the freshly minted token",
-                  "stored value roots %s" % sorted(map(repr, sig(rv)))[:6], c.where())
+    # what insert does, as a decision table (abstract evaluation with a model of the map, mapmodel.py): key known / new x counter
+    # ordinary / at its maximum.  `entry().or_insert_with(..)`, an explicit match on the Entry and `get` + `insert` are one table.
+    tokenmap_insert_table(ctx, facts)
     # nothing else writes TokenMap.map / counter
     for g in facts.fns.values():
         if g.key in ins_family or g.d.get("parent") in ins_family or g.nkey.startswith("<client::pool::key::TokenMap as std::default::Default>"):
@@ -292,12 +351,6 @@ def C06_3(ctx, facts):
                 tys = t.get("argtys") or []
                 if c.matches(r"mem::(replace|swap|take)") and tys and tys[0].startswith("&mut " + TM):
                     ctx.bad("%s|tokenmap-overwritten" % g.nkey, "a TokenMap is replaced through std::mem: tokens already handed out would be issued again", c.where())
-    for c in ins.calls():
-        tys = c.t.get("argtys") or []
-        if tys and tys[0].startswith("&mut std::collections::HashMap<"):
-            ctx.check(c.matches(r"HashMap.*::entry$"), "TokenMap::insert|map-access|%s" % norm(c.name).split("::")[-1],
-                      "insert touches the map through entry() only (no removal, clearing or overwriting of stored tokens)",
-                      "TokenMap::insert calls %s on the map" % norm(c.name), c.where())
     ctx.ok("TokenMap|never-overwritten", "no TokenMap value is overwritten or replaced outside its constructor (%d assignments scanned)" % n_scanned)
     # TokenMap::insert callers
     cs = facts.call_sites_of("client::pool::key::TokenMap::insert")
